@@ -54,6 +54,7 @@ def classify (line : Str) : Line :=
 
 structure St where
   links : List Str := []
+  ghost : List (Nat × Str) := []   -- (number printed, own target), see Hypertext.LinkSt
   result : Str := []
   pre : Bool := false
   buf : Str := []
@@ -70,17 +71,21 @@ def step (c : Colors) (width : Int) (s : St) (line : Str) : St :=
     match classify line with
     | .link uri alt =>
       let links := s.links ++ [uri]
-      { s with links := links,
+      { s with links := links, ghost := s.ghost ++ [(links.length, uri)],
                result := s.result ++ Style.linkBlock c (Ansi.wrap alt (width - 2)) links.length ++ ['\n'] }
     | .header k t => { s with result := s.result ++ Style.header c (Ansi.wrap t (width - (k + 1))) k ++ ['\n'] }
     | .bullet t => { s with result := s.result ++ Style.bullet (Ansi.wrap t (width - 2)) ++ ['\n'] }
     | .quote t => { s with result := s.result ++ Style.quoteBlock c (Ansi.wrap t (width - 1)) ++ ['\n'] }
     | .plain t => { s with result := s.result ++ t ++ ['\n'] }
 
-def renderWithLinks (c : Colors) (lines : List Str) (width : Int) : Str × List Str :=
+def renderFull (c : Colors) (lines : List Str) (width : Int) : Str × St :=
   let s := lines.foldl (step c width) {}
   let result := if s.pre then s.result ++ codeBlockOf c s.buf width else s.result
-  (trim isNl (Ansi.wrap result width), s.links)
+  (trim isNl (Ansi.wrap result width), s)
+
+def renderWithLinks (c : Colors) (lines : List Str) (width : Int) : Str × List Str :=
+  let r := renderFull c lines width
+  (r.1, r.2.links)
 
 end Gemtext
 
@@ -109,23 +114,27 @@ def matchUrl (s : Str) : Option (Str × Str) :=
   | [] => none
 
 /-- `ReplaceAllStringFunc`: leftmost, non-overlapping matches. -/
-def replaceUrls (c : Colors) : Nat → Str → List Str → Str × List Str
-  | 0, _, links => ([], links)
-  | fuel + 1, s, links =>
+def replaceUrls (c : Colors) : Nat → Str → List Str → List (Nat × Str) → Str × List Str × List (Nat × Str)
+  | 0, _, links, ghost => ([], links, ghost)
+  | fuel + 1, s, links, ghost =>
     match s with
-    | [] => ([], links)
+    | [] => ([], links, ghost)
     | ch :: rest =>
       match matchUrl s with
       | some (link, after) =>
         let links' := links ++ [link]
-        let r := replaceUrls c fuel after links'
+        let r := replaceUrls c fuel after links' (ghost ++ [(links'.length, link)])
         (Style.link c link links'.length ++ r.1, r.2)
       | none =>
-        let r := replaceUrls c fuel rest links
+        let r := replaceUrls c fuel rest links ghost
         (ch :: r.1, r.2)
 
-def renderWithLinks (c : Colors) (text : Str) (width : Int) : Str × List Str :=
-  let r := replaceUrls c (text.length + 1) text []
+def renderFull (c : Colors) (text : Str) (width : Int) : Str × List Str × List (Nat × Str) :=
+  let r := replaceUrls c (text.length + 1) text [] []
   (trim isNl (Ansi.wrap r.1 width), r.2)
+
+def renderWithLinks (c : Colors) (text : Str) (width : Int) : Str × List Str :=
+  let r := renderFull c text width
+  (r.1, r.2.1)
 
 end Plaintext
